@@ -50,8 +50,10 @@ def shards(tier, seed):
     names = [v.name for v in KS.VARIANTS]
     n = 14 if tier == "quick" else 28
     out = []
-    for i in range(n):
-        out.append({"name": f"audit{i}", "variants": names[i::n], "mode": "audit"})
+    # contiguous chunks: option variants of one generator (widths, reset on/off, scalar/vector, filter type/order) run in ONE
+    # process, forwards and then backwards, so anything a generator memoises under an incomplete key is hit in both orders
+    for i, ch in enumerate(util.chunks(names, n)):
+        out.append({"name": f"audit{i}", "variants": ch, "mode": "audit"})
     # sanitizer leg
     if tier == "quick":
         sub = [nm for j, nm in enumerate(names) if (j + seed) % 3 == 0]
@@ -92,14 +94,24 @@ def run_shard(sh, rec):
     dtypes = ["float64", "float32"]
     if mode == "asan" and tier == "quick":
         dtypes = ["float64"]
-    for vname in sh["variants"]:
+    order = list(sh["variants"])
+    if mode == "audit":
+        order = order + [("again", nm) for nm in reversed(order[:-1])]
+    for item in order:
+        again = isinstance(item, (tuple, list))
+        vname = item[1] if again else item
         v = KS.BY_NAME[vname]
-        for dts in dtypes:
+        for dts in (dtypes[:1] if again else dtypes):
             real_t = util.DT[dts]
             rng = util.rng_for(seed, "C13", vname, dts, mode)
             nts = [2]
             if mode == "audit" and (tier == "thorough" or (hash(vname) + seed) % 4 == 0):
                 nts = [2, False, 3]
+            if again:
+                # second pass in reverse order: generators are called again in this process (serial build: wrappers' internal
+                # boundary kernels are serial), one minimal + one random shape, contiguous layout
+                nts = [False]
+                rec.count("second_pass_generator_calls_reverse_order")
             for nt in nts:
                 K = None
                 if not v.needs_grid:
@@ -108,7 +120,7 @@ def run_shard(sh, rec):
                     except Exception as e:
                         rec.violation(f"{vname}-generator-raises", f"{type(e).__name__}: {e}", {"variant": vname})
                         continue
-                layouts = LAYOUTS if (mode == "audit" and nt == 2) else ("contig",)
+                layouts = LAYOUTS if (mode == "audit" and nt == 2 and not again) else ("contig",)
                 for sk, shape in _shapes(v, rng, tier, mode):
                     for layout in layouts:
                         A = audit.Arrays(rng, real_t, layout)
@@ -137,8 +149,10 @@ def run_shard(sh, rec):
                                         a[...] = A._sentinels(a.shape, a.dtype) if a.dtype.kind == "c" else util.sentinel_like(rng, a.shape, a.dtype)
                                     elif role == "scratch":
                                         a[...] = (rng.standard_normal(a.shape) * 50).astype(a.dtype)
+                                    elif k in ("char_field", "level_set_field"):
+                                        pass  # structured inputs (indicator in [0,1], level set with exact +-width entries) stay as generated
                                     elif a.dtype.kind != "c":
-                                        a[...] = (a * real_t(-0.75) + real_t(0.1)).astype(a.dtype) if role == "in" and k in ("char_field", "level_set_field") else (rng.standard_normal(a.shape)).astype(a.dtype) if k not in ("char_field", "level_set_field") else a
+                                        a[...] = rng.standard_normal(a.shape).astype(a.dtype)
                                     else:
                                         a[...] = (rng.standard_normal(a.shape) + 1j * rng.standard_normal(a.shape)).astype(a.dtype)
                                 if "buffers" in (ctx or {}):
